@@ -173,15 +173,17 @@ def main(tier, seed, replay=None):
         else:
             files = [SOURCES[seed % len(SOURCES)]] if tier == "quick" else SOURCES
             hows = ["KILL", "SEGV"] if tier == "quick" else ["KILL", "SEGV", "ABRT", "exit3"]
-            if variant == "bd" and tier == "quick":
-                hows = ["KILL"]
-            jobs_list = [2] if tier == "quick" else [2, 3, 4]
+            if variant == "bd":
+                hows = ["KILL"] if tier == "quick" else ["KILL", "ABRT"]
+            jobs_list = [2] if tier == "quick" else ([2, 3, 4] if variant == "plain" else [2, 4])
             for f in files:
                 for k in range(nev.get(f, 0)):
-                    if tier == "quick" and variant == "bd":
-                        # quick: every cache-file, pipe and framing event of the worker, every 4th of the other events
+                    if variant == "bd":
+                        # every cache-file, pipe and framing event of the worker; of the other events (hundreds of pipeline steps
+                        # with information messages enabled) every 4th in quick and every 2nd in thorough
                         kind = points[(variant, f, k)]
-                        if not (kind.startswith(("Ai", "Send", "Sent", "Child", "Check")) or k % 4 == seed % 4):
+                        stride = 4 if tier == "quick" else 2
+                        if not (kind.startswith(("Ai", "Send", "Sent", "Child", "Check")) or k % stride == seed % stride):
                             continue
                     for how in hows:
                         faults.append({"file": f, "k": k, "how": how, "variant": variant})
@@ -252,8 +254,8 @@ def main(tier, seed, replay=None):
     kinds = sorted(set(points.values()))
     nev = nev_all
     cov = {"evaluations": len(observations), "distinct_nontrivial": judged,
-           "rule": "one run per (variant plain / build-dir+information, file, event index of its worker, way of dying, job count) plus faults that kill every worker at its k-th event; quick takes one file, all its event indices in the plain variant and every cache/pipe/framing event + every 4th other event in the build-dir variant; non-trivial = the fault point was reached and a worker died",
-           "exhaustive": tier == "thorough", "crash_point_kinds": kinds, "events_per_worker": nev,
+           "rule": "one run per (variant plain / build-dir+information, file, event index of its worker, way of dying, job count) plus faults that kill every worker at its k-th event; quick takes one file, all its event indices in the plain variant and every cache/pipe/framing event + every 4th other event in the build-dir variant (thorough: all files, every 2nd other event there); non-trivial = the fault point was reached and a worker died",
+           "exhaustive": False, "crash_point_kinds": kinds, "events_per_worker": nev,
            "traces_validated_against_impl": tres.validated, "trace_rejected": len(tres.rejected), "bad": len(bad),
            "states": mc[0], "samples": mc[1] + observations[:2] + observations[-1:]}
     vlib.write_evidence(PID, tier, seed, "fault_enumeration", cov, time.time() - t0, violations=new,
